@@ -10,23 +10,25 @@ TB_COMMON = [
 PROPS = {}
 
 PROPS["C17"] = {
-    "modules": ["Platypus.Properties.C17"],
-    "theorems": [
-        "Platypus.LnCol.linear_correct",
-        "Platypus.LnCol.cache_correct",
-        "Platypus.LnCol.lookups_agree",
-    ],
-    "rule": "lookup: every text over {a, newline, e-acute} up to length 6 (quick) / 8 (thorough) x every offset -2..len+2, "
-            "plus random byte strings (invalid UTF-8, CR, NUL) x boundary and random offsets; one case per text; "
-            "a case is non-trivial unless marked triv by the generator; distinct = distinct input line",
+    "modules": ["Platypus.Properties.C17", "Platypus.Properties.C17Chain"],
+    "theorems": None,
+    "rule": "lookup: every text over {a, newline, e-acute} up to length 6 (quick) / 8 (thorough) x every offset -2..len+2, plus random byte strings (invalid UTF-8, CR, NUL) x boundary and random offsets; "
+            "tree positions: generated statement trees (every expression and statement form) x 4 layout families: on the real parser's tree every stored position must carry the line/column of its offset and the source must spell that node's token there "
+            "(identifier, literal, operator, bracket, keyword; attribute expressions start at their first token); "
+            "error positions: 28 base programs x injected load-time faults (10 expression, 5 statement offenders) and run-time faults (7 + 3), run directly and through use() from a caller: "
+            "the error names the script at fault, lies inside the lines of the statement at fault, and every chain position carries the line/column of its offset in its own file; "
+            "error chains: chains of 1..4 positions followed by every sequence of up to 3 (quick) / 4 (thorough) operations append-through-any-handle / copy-of-any-handle, plus random sequences: "
+            "the Go objects are compared with the store model after every operation (positions, rendering, JSON round trip); distinct = distinct input line",
     "exhaustive": True,
     "trusted_base": TB_COMMON + [
         "modelled, not verified: Go's range-over-string rune decoding (a 0x0A byte is always its own rune; exercised with invalid UTF-8)",
+        "tree and error positions are judged on the implementation's outputs by executable specifications (Driver/C17.lean); the parser model of C06 carries no positions",
     ],
-    "assumptions": ["Go int is 64 bit", "model of token.go is hand written; tied by the correspondence run on every check"],
-    "technique": "Lean 4 theorems (both lookup routines = declarative spec, for all texts and offsets) + differential correspondence of the Lean model with token.go",
-    "level_text": "Kernel-checked theorems that the model of PosCache.LnCol (binary search) and LnCol (linear scan) equal the declarative line/column specification for every byte string and every integer offset; the model is tied to token.go by running both on all texts up to a length bound and random byte strings on every check.",
-    "level_note": "Trusted: Lean kernel; the hand-written model's fidelity is checked by correspondence, not proved; Go range-over-string decoding is modelled byte-wise.",
+    "assumptions": ["Go int is 64 bit", "models of token.go and errchain are hand written; tied by the correspondence run on every check"],
+    "technique": "Lean 4 theorems (both lookup routines = declarative line/column specification for all texts and offsets; error-chain store: an append reaches only its own handle, copies are independent, rendering shape) + differential correspondence with token.go and errchain + executable position specifications on the real parser's trees and on injected faults",
+    "level_text": "Kernel-checked: the models of PosCache.LnCol (binary search) and LnCol (linear scan) equal the declarative line/column specification for every byte string and integer offset; in the error-chain store model an append changes exactly one error and a copy shares nothing. "
+                  "Tied to token.go and errchain by exhaustive texts/operation sequences on every check. Stored tree positions and error positions are decided per generated input on the implementation's own output.",
+    "level_note": "Partial for tree and error positions: decided on generated inputs (no theorem; the parser model is position-free). Trusted: Lean kernel; the hand-written models' fidelity is checked by correspondence.",
 }
 
 
@@ -123,13 +125,17 @@ _mk("C13",
     extra_tb=[TB_FLOAT])
 
 _mk("C14",
-    ["Platypus.Properties.C14"],
-    rule="12 endless/nested empty-bodied loop programs (incl. inside a callee) and N random loop-bearing two-script programs x every poll index k = 1..min(polls of the uninterrupted run, 40 quick / 200 thorough): "
+    ["Platypus.Properties.C14", "Platypus.Properties.C14Prefix"],
+    rule="v1: 12 endless/nested empty-bodied loop programs (incl. inside a callee), 5 hand-written loops whose loop clause has a visible effect with continue/break in nested ifs and use() in the body, "
+         "2 programs with use() nested inside a larger expression (known finding), and N random loop-bearing two-script programs; v2: 6 endless loops, 5 loops with continue/break and a visible loop clause, N random v2 programs; "
+         "each x every poll index k = 1..min(polls of the uninterrupted run, 40 quick / 200 thorough): "
          "each interrupted run is compared with the model and must end ok/err (no timeout), and its probe trace and output must be a prefix of the uninterrupted run's (checked on the implementation's own outputs); strict",
-    technique="Lean 4 theorems (poll semantics, exit absorbs blocks and loops for every expression evaluator) + every-poll-index correspondence + prefix check of the implementation's own traces",
-    level_text="Kernel-checked: a poll that reports true sets the exit flag; from then on no block starts a statement and every three-clause loop ends at its head, nothing polls again in that task. "
-               "The effects-prefix clause is decided on the implementation's outputs for every poll index of every generated program (not a theorem: partial).",
-    level_note="Partial: effects_prefix is not proved in Lean (use() nested inside a larger expression lets the rest of that expression run after the callee observed the signal: known finding); v2 is covered by C18's machinery.",
+    technique="Lean 4 theorems effects_prefix (the interrupted run's trace is a prefix of the trace of any run interrupted later or never; whole v1 evaluator incl. use() and all builtins, by lockstep induction on fuel), observed_implies_ok, error_before_observation, nothing_after_observation_* (block, for head, loop tail, callee entered later) "
+              "+ every-poll-index correspondence for both interpreters + prefix check of the implementation's own traces",
+    level_text="Kernel-checked for every script in which use() occurs only as a statement of its own (and no statement node sits inside an expression), every world, oracle, map order, fuel and every pair of firing indices k <= k' (or never): "
+               "if both runs end, the earlier-interrupted run's effects are a prefix of the other's; an error of the interrupted run is raised before the observation and is the same error the other run raises; once the signal was observed the run ends ok and "
+               "every block, loop head, loop tail and callee entered afterwards performs one poll and nothing else. nested_use_breaks_prefix proves the hypothesis is needed (known finding). Tied to runtime.go/runtimev2 by programs x every firing index.",
+    level_note="The theorem is about the v1 model; v2 is covered by the correspondence run and the prefix specification on its outputs, not by a theorem. Effects = probe and output events (world.trace); point and heap are shown unchanged after the observation only by the explicit nothing_after_observation equations.",
     extra_tb=[TB_FLOAT])
 
 _mk("C09",
@@ -191,7 +197,7 @@ _mk("C07",
     extra_tb=["strconv.ParseFloat (oracle)"], exhaustive=True)
 
 _mk("C01",
-    ["Platypus.Properties.C01"],
+    ["Platypus.Properties.C01", "Platypus.Properties.C01Bridge"],
     rule="random programs over the whole grammar from the typed generator with 1-in-5 ill-typed operands, extreme integers (+-2^53+-1, min/max int64), negative/reversed/out-of-range/overflowing slice bounds and steps, "
          "object-less index expressions, attribute expressions, every builtin with the argument shapes its checker accepts, exit(), on random points (tags/fields of every type, nil, colliding names); "
          "each program is loaded and run by the real engine in a worker process (panic, fatal error, timeout and OOM are classified) and by the model; "
